@@ -47,6 +47,8 @@ ASSUMPTIONS = [
     'the subject of C05)',
 ]
 TRUSTED = [
+    'translate/functional_lipschitz.py (Python ast -> Gallina: grad_lipschitz / linear arguments of each __init__), '
+    'fail-closed; C09/GenTie.v proves the hand model uses exactly these formulas',
     'coq/C09/Model.v hand-written transcription of functional.py / default_functionals.py at /repo >= aef4c15, 7ebf769 (validated by the '
     'correspondence on every run)',
     'harness/c09.py tree generator and flattening of odl elements',
@@ -63,6 +65,12 @@ LEVEL_NOTE = ('Leaves with log/exp/prox (KL, Moreau envelope), group norms and N
               'only. Exact arithmetic; classical reals + funext axioms as printed by Print Assumptions.')
 TECHNIQUE = ('Coq proof by structural induction on a deep embedding of functional arithmetic over an abstract real '
              'inner-product space (Frechet calculus from std Reals) + in-Coq differential correspondence at Q')
+
+
+def translate():
+    """grad_lipschitz / linear formulas of every modelled class, regenerated from the current source"""
+    from translate import functional_lipschitz as T
+    return {'Gen/FunctionalLip.v': T.translate()}
 
 
 # ------------------------------------------------------------------ spaces
